@@ -535,9 +535,9 @@ def engine_hammer(prop, tier, seed, work):
     chan = [{"id": "hm%d_unb" % seed, "kind": "chan", "rounds": n, "bound": -1}, {"id": "hm%d_b2" % seed, "kind": "chan", "rounds": n // 4, "bound": 2},
             {"id": "hm%d_b1" % seed, "kind": "chan", "rounds": n // 4, "bound": 1}, {"id": "hm%d_chandrop" % seed, "kind": "chandrop", "rounds": nd}]
     ping = [{"id": "hm%d_ping" % seed, "kind": "ping", "rounds": n}, {"id": "hm%d_pingdrop" % seed, "kind": "pingdrop", "rounds": nd}]
-    exe = [{"id": "hm%d_exec" % seed, "kind": "exec", "rounds": n}]
+    exe = [{"id": "hm%d_exec" % seed, "kind": "exec", "rounds": n, "spin": 400}, {"id": "hm%d_exec_far" % seed, "kind": "exec", "rounds": n // 2, "spin": 2000}]
     wk = [{"id": "hm%d_wakeup" % seed, "kind": "wakeup", "rounds": n // 4}]
-    scns = {"C04": chan, "C03": ping, "C10": exe, "C02": chan[:1] + ping[:1] + exe, "C11": wk}[prop]
+    scns = {"C04": chan, "C03": ping, "C10": exe, "C02": chan[:1] + ping[:1] + exe[:1], "C11": wk}[prop]
     sp, tr = os.path.join(work, "hammer_scn.ndjson"), os.path.join(work, "hammer_trace.ndjson")
     with open(sp, "w") as f:
         for s in scns:
